@@ -9,10 +9,18 @@ E   the same strings / command lines / (template, state) pairs, with the expansi
     every command line the specification calls inert and must see exactly the words TLC computed.  Every string also
     goes through the executor NewExecutor builds under every cell of the matrix (which cells give which quoted form =
     the table TLC computed), and what a POSIX-evaluated cell quotes is read by the program its own ExecCommand starts.
+    MC_ShellExpand_files*: the same machine under every --delimiter of a menu (AWK, literal strings, a bracket
+    expression) and both print separators: item placeholders {N} cut with the delimiter, {q:N} always at blanks, file
+    placeholders ({f} {+f} {+f2} {sf2..} {fn} {+nf}) = the symbol FILE in the command line plus the file's contents
+    (every record terminated).  MC_ShellEnv: every environment ENTRY over an 11-symbol alphabet - which are exported
+    by the --tmux re-launch script and the theorem that sh evaluating it defines exactly those - one `fzf --tmux` run
+    of the real binary per entry (script text, environment of the re-launched process, nothing else ran).
 J   random long multi-line items / queries / selections through the same code, run by the real Executor.ExecCommand
     under every shell and under cells of the matrix; the real binary's --tmux re-launch (stand-in tmux, stand-in child);
     the real binary under tmux with $SHELL / --with-shell of every POSIX-evaluated cell running
-    load:execute-silent(printf '%s\\0' {} {q} > file)+abort on random items / queries; Judge_Shell decides.
+    load:execute-silent(printf '%s\\0' {} {q} > file)+abort on random items / queries; the real binary with
+    --read0 --multi [--print0] [--delimiter D] running select-all+execute-silent(cp {+f} ..; cp {+f2} ..; printf
+    {q:1} {q:2..} {2} {+1} ..)+abort (files read back, words seen by printf); Judge_Shell decides.
 """
 import json, os, shlex, shutil
 from concurrent.futures import ThreadPoolExecutor
@@ -26,7 +34,7 @@ CODE = {"SQ": "Q", "DQ": "D", "BSL": "B", "DOL": "S", "BT": "T", "SP": "_", "LF"
         "AMP": "A", "PIPE": "P", "LP": "L", "LB": "O", "RB": "E", "BANG": "G", "HASH": "H", "TILDE": "W"}
 SPECIAL_CODES = set(CODE.values())
 CHAR = {"Q": "'", "D": '"', "B": "\\", "S": "$", "T": "`", "_": " ", "N": "\n", "X": "*", "C": ";", "A": "&", "P": "|",
-        "L": "(", "O": "{", "E": "}", "G": "!", "H": "#", "W": "~"}
+        "L": "(", "O": "{", "E": "}", "G": "!", "H": "#", "W": "~", "u": "_", "Z": "\\0", "F": "<FILE>"}
 
 
 def show(code):
@@ -66,10 +74,11 @@ def per_shell(shells, words):
 
 def kf_site(c, exp, r):
     got = r.get("got") or {}
-    for k in ("argv", "p", "f", "e", "valid", "x", "xf", "sh", "xs", "ev"):
+    for k in ("argv", "p", "f", "e", "valid", "x", "xf", "fs", "sh", "xs", "ev"):
         if k in exp and got.get(k) != exp[k]:
             site = {"p": "Executor.QuoteEntry(posix)", "f": "Executor.QuoteEntry(fish)", "e": "escapeSingleQuote",
                     "valid": "buildPlusList", "x": "replacePlaceholder", "xf": "replacePlaceholder(fish)",
+                    "fs": "replacePlaceholder/WriteTemporaryFile (file placeholder contents)",
                     "sh": "real shell", "argv": "NewExecutor/ExecCommand argv",
                     "xs": "NewExecutor: quoting style per ($SHELL, --with-shell)",
                     "ev": "real shell started by the executor of a ($SHELL, --with-shell) cell"}[k]
@@ -82,7 +91,7 @@ def describe(c, exp, r):
     got = r.get("got") or {}
     diff = {k: {"spec": exp[k], "real": got.get(k)} for k in exp if got.get(k) != exp[k]}
     inp = {k: (show(c[k]) if k in ("s", "t", "its", "q") else c[k]) for k in c
-           if k in ("s", "t", "its", "ix", "cur", "sel", "q", "fp", "shell", "set", "ws")}
+           if k in ("s", "t", "its", "ix", "cur", "sel", "q", "fp", "shell", "set", "ws", "d", "sep", "ent")}
     if "xs" in diff and CELLS:
         # name the cells whose executor quotes differently from the table
         def per_cell(xs):
@@ -97,10 +106,10 @@ def describe(c, exp, r):
     def shw(v):
         if isinstance(v, dict):
             return {k: shw(x) for k, x in v.items()}
-        if isinstance(v, str) and v.startswith("ERR"):
+        if isinstance(v, str) and (v.startswith("ERR") or v.startswith("!")):
             return v
         return show(v) if isinstance(v, (str, list)) else v
-    return "input %s:%s %s" % (json.dumps(inp), extra, json.dumps({k: shw(v) for k, v in diff.items()})[:900])
+    return "input %s:%s %s" % (json.dumps(inp), extra, json.dumps({k: (v if k == "err" else shw(v)) for k, v in diff.items()})[:900])
 
 
 def mc_and_cases(ctx, module, cfg, label, coverage=False, env=None, timeout=2400, workers=None):
@@ -137,15 +146,19 @@ def rand_placeholder(rng, allow_raw):
         flags.append("s")
     if allow_raw and rng.random() < 0.3:
         flags.append("r")
+    if rng.random() < 0.2:          # file placeholder: the expansion is a path, the texts are in the file
+        flags.append("f")
     rng.shuffle(flags)
     if k < 0.25:
         body = flags
     elif k < 0.40:
-        body = rng.choice([["n"], ["PLUS", "n"]])
-    elif k < 0.70:
+        body = rng.choice([["n"], ["PLUS", "n"], ["n"], ["PLUS", "n"], ["f", "n"], ["n", "f"], ["f", "n", "f"],
+                           ["PLUS", "f", "n"], ["PLUS", "n", "f"], ["PLUS", "f", "n", "f"]])
+    elif k < 0.65:
         body = flags + rng.choice(RANGES)
     elif k < 0.85:
-        body = rng.choice([["q"], ["q"], ["q", "COLON"] + rng.choice(RANGES), ["q", "COLON", "s"] + rng.choice(RANGES)])
+        body = rng.choice([["q"], ["q", "COLON"] + rng.choice(RANGES), ["q", "COLON"] + rng.choice(RANGES),
+                           ["q", "COLON", "s"] + rng.choice(RANGES)])
     elif k < 0.92:
         body = flags + rng.choice(BAD_RANGES)
     else:
@@ -180,10 +193,35 @@ def rand_template(rng):
     return [s for t in toks for s in t]
 
 
+# --delimiter menu of the random records: AWK (not given), literal strings, bracket expressions (regular expressions)
+DELIMS = [("str", ["COLON"]), ("str", ["COLON", "COLON"]), ("str", ["SP"]), ("str", ["SEMI"]), ("str", ["a"]),
+          ("str", ["a", "COLON"]), ("cls", ["SEMI", "COLON"]), ("cls", ["SP", "COLON"]), ("cls", ["a", "SEMI"])]
+
+
+def delim_arg(d):
+    """the --delimiter argument that gives this delimiter (None: option not given)"""
+    if d["kind"] == "awk":
+        return None
+    return text_of(d["pat"]) if d["kind"] == "str" else "[" + text_of(d["pat"]) + "]"
+
+
+def rand_delim(rng, p_awk=0.4):
+    if rng.random() < p_awk:
+        return {"kind": "awk", "pat": []}
+    k, pat = rng.choice(DELIMS)
+    return {"kind": k, "pat": list(pat)}
+
+
 def rand_record_input(rng):
     nitems = rng.randint(1, 5)
-    extra = ("LB", "RB", "q", "PLUS", "n", "1")      # data that looks like a placeholder must stay data
+    extra = ["LB", "RB", "q", "PLUS", "n", "1"]      # data that looks like a placeholder must stay data
+    d = rand_delim(rng)
+    if d["kind"] != "awk":                            # the delimiter occurs in lines and in the query
+        extra += (d["pat"] + ["SP"]) * 4
+    sep = "NUL" if rng.random() < 0.3 else "LF"
     items = [rand_text(rng, 40, extra) for _ in range(nitems)]
+    if rng.random() < 0.3:           # a last line that is empty / ends with the delimiter / ends with a line feed
+        items[-1] = rng.choice([[], items[-1] + (d["pat"] or ["SP"]), items[-1] + ["LF"], ["a"]])
     ix = rng.sample(range(0, 100000), nitems)
     if rng.random() < 0.3:          # small ordinals too (ordinals are unique: selectItem keys the selection by them)
         small = rng.choice([0, 9, 10, 99])
@@ -194,16 +232,69 @@ def rand_record_input(rng):
     if rng.random() < 0.6:
         sel = rng.sample(range(1, nitems + 1), rng.randint(1, nitems))
     return {"t": rand_template(rng), "items": items, "ix": ix, "cur": cur, "sel": sel, "q": rand_text(rng, 40, extra),
-            "fp": rng.random() < 0.2}
+            "fp": rng.random() < 0.2, "d": d, "sep": sep}
 
 
-def rand_tmux_input(rng):
+IDENT_START = ["a", "q", "n", "s", "r", "f", "e", "x", "p", "o", "t", "US"]
+IDENT_CHARS = IDENT_START + ["0", "1", "2", "9"]
+# what must never get from a NAME into the script
+NAME_JUNK = ["SEMI", "MINUS", "DOT", "SP", "LF", "DOL", "BT", "LP", "AMP", "PIPE", "SQ", "DQ", "BSL", "STAR", "HASH",
+             "LB", "RB", "BANG", "TILDE", "COLON", "PLUS"]
+# entries whose name is shell syntax that would run the stand-in command `a` (first in $PATH) if it got into the script
+DIRECTED_ENTS = [
+    ["x", "SEMI", "a", "SP", "f", "SEMI", "q", "EQ", "1"],                      # x;a f;q=1
+    ["x", "BT", "a", "SP", "f", "BT", "EQ", "1"],                               # x`a f`=1
+    ["x", "LF", "a", "SP", "f", "LF", "q", "EQ", "1"],                          # x<newline>a f<newline>q=1
+    ["x", "AMP", "a", "SP", "f", "AMP", "q", "EQ", "1"],                        # x&a f&q=1
+    ["x", "PIPE", "a", "SP", "f", "EQ", "1"],                                   # x|a f=1
+    ["x", "DOL", "LP", "a", "SP", "f", "EQ", "1"],                              # x$(a f=1
+    ["n", "MINUS", "s", "EQ", "1"], ["n", "DOT", "s", "EQ", "1"], ["n", "SP", "s", "EQ", "1"],   # n-s  n.s  n s
+    ["1", "a", "EQ", "1"], ["MINUS", "a", "EQ", "1"], ["EQ", "a"], ["EQ"],      # 1a=1  -a=1  =a  =
+    ["n", "MINUS", "s"], ["SEMI", "a", "SP", "f"], ["n", "SP"],                 # without "=": n-s  ;a f  "n "
+]
+
+
+def rand_ident(rng, used):
+    while True:
+        name = [rng.choice(IDENT_START)] + [rng.choice(IDENT_CHARS) for _ in range(rng.randint(0, 6))]
+        key = tuple(name)
+        if key not in used and name != ["US"]:      # $_ is maintained by the shells themselves
+            used.add(key)
+            return name
+
+
+def rand_bad_name(rng, used):
+    while True:
+        n = rng.randint(1, 8)
+        name = [rng.choice(IDENT_CHARS + NAME_JUNK + NAME_JUNK) for _ in range(n)]
+        if rng.random() < 0.7:      # a valid beginning, then something else
+            name = [rng.choice(IDENT_START)] + name
+        ident = name[0] in IDENT_START and all(c in IDENT_CHARS for c in name)
+        if not ident and "EQ" not in name and tuple(name) not in used:
+            used.add(tuple(name))
+            return name
+
+
+def rand_tmux_input(rng, k=0):
+    """one `fzf --tmux` run: arguments, and an environment of entries with identifier names (random values), entries
+    whose names are not identifiers (never exported, never evaluated) and entries without "=" (not variables)"""
     name = rand_text(rng, 10) or ["a"]
     opts = rng.sample(["--query", "--prompt", "--header", "--preview", "--border-label"], rng.randint(1, 4))
     args = [["--tmux"]]
     for o in opts:
         args += [[o], rand_text(rng, 40)]
-    return {"name": name, "args": args, "envs": [rand_text(rng, 40) for _ in range(rng.randint(1, 4))]}
+    used = set()
+    ents = []
+    for _ in range(rng.randint(1, 4)):
+        ents.append(rand_ident(rng, used) + ["EQ"] + rand_text(rng, 40, ("EQ", "EQ")))
+    for _ in range(rng.randint(0, 3)):
+        bad = rand_bad_name(rng, used)
+        # without "=": only names that are not identifiers (an identifier without "=": see the E cases / finding)
+        ents.append(bad if rng.random() < 0.2 else bad + ["EQ"] + rand_text(rng, 12))
+    if k < 2 * len(DIRECTED_ENTS):
+        ents.append(DIRECTED_ENTS[k % len(DIRECTED_ENTS)])
+    rng.shuffle(ents)
+    return {"name": name, "args": args, "ents": ents}
 
 
 def record_and_judge(ctx, binary, run, inputs, label, env, describe_rec, kf):
@@ -238,13 +329,13 @@ def record_and_judge(ctx, binary, run, inputs, label, env, describe_rec, kf):
 def text_of(syms):
     m = {"SQ": "'", "DQ": '"', "BSL": "\\", "DOL": "$", "BT": "`", "SP": " ", "LF": "\n", "STAR": "*", "SEMI": ";",
          "AMP": "&", "PIPE": "|", "LP": "(", "LB": "{", "RB": "}", "BANG": "!", "HASH": "#", "TILDE": "~", "PLUS": "+",
-         "MINUS": "-", "DOT": ".", "COLON": ":"}
+         "MINUS": "-", "DOT": ".", "COLON": ":", "US": "_", "EQ": "=", "NUL": "\0", "FILE": "F"}
     return "".join(m.get(s, chr(int(s[1:], 16)) if len(s) == 3 and s[0] == "x" else s) for s in syms)
 
 
 SYM_OF = {"'": "SQ", '"': "DQ", "\\": "BSL", "$": "DOL", "`": "BT", " ": "SP", "\n": "LF", "*": "STAR", ";": "SEMI",
           "&": "AMP", "|": "PIPE", "(": "LP", "{": "LB", "}": "RB", "!": "BANG", "#": "HASH", "~": "TILDE", "+": "PLUS",
-          "-": "MINUS", ".": "DOT", ":": "COLON"}
+          "-": "MINUS", ".": "DOT", ":": "COLON", "_": "US", "=": "EQ", "\0": "NUL", "F": "FILE"}
 
 
 def syms_of(text):
@@ -255,7 +346,8 @@ def syms_of(text):
 def describe_expand_rec(r):
     return json.dumps({"template": text_of(r["t"]), "items": [text_of(i) for i in r["items"]], "ordinals": r["ix"],
                        "cur": r["cur"], "sel": r["sel"], "query": text_of(r["q"]), "forcePlus": r["fp"],
-                       "valid": r["valid"], "expansion": text_of(r["x"]),
+                       "delimiter": delim_arg(r["d"]), "sep": r["sep"],
+                       "valid": r["valid"], "expansion": text_of(r["x"]), "files": [text_of(f) for f in r["fs"]],
                        "argv": {k: [text_of(w) for w in v] for k, v in r["argv"].items()},
                        "matrix_runs": [{"SHELL": "/".join(c["shell"]) if c["set"] else None,
                                         "with-shell": " ".join("/".join(w) for w in c["ws"]),
@@ -266,9 +358,17 @@ def describe_expand_rec(r):
 
 
 def describe_tmux_rec(r):
-    return json.dumps({"argv0": text_of(r["argv0"]), "args": [text_of(a) for a in r["args"]],
-                       "env": [text_of(a) for a in r["envs"]], "child_argv": [text_of(a) for a in r["seen"]],
-                       "child_env": [text_of(a) for a in r["seenenv"]], "err": r["err"]})[:1500]
+    return json.dumps({"env_entries": [text_of(a) for a in r["ents"]], "script_part": text_of(r["script"]),
+                       "child_env": [text_of(a) for a in r["seenenv"]], "ran": [text_of(a) for a in r["ran"]],
+                       "err": r["err"], "argv0": text_of(r["argv0"]), "args": [text_of(a) for a in r["args"]],
+                       "child_argv": [text_of(a) for a in r["seen"]]})[:1800]
+
+
+def kf_tmux(r):
+    noeq = [e for e in r["ents"] if "EQ" not in e and e and e[0] in IDENT_START and all(c in IDENT_CHARS for c in e)]
+    if noeq and r["err"]:
+        return {"site": "runProxy", "kind": "env-entry-without-equals"}
+    return {"site": "runTmux/runProxy re-quoting"}
 
 
 # ------------------------------------------------------------------------------------------------ process level
@@ -331,6 +431,90 @@ def pexec_and_judge(ctx, inputs):
     return recs
 
 
+# ---- process level: delimiters, {q:N}, file placeholders
+PMIX_BIND = ("load:select-all+execute-silent(cp {+f} pf.bin; cp {+f2} pf2.bin; cp {f} cf.bin; cp {+nf} nf.bin; "
+             "printf '%s\\0' {q:1} {q:2..} {q:s-1} {2} {+1} > seen.bin)+abort")
+
+
+def rand_pmix_input(rng, k):
+    d = rand_delim(rng, 0.25)
+    extra = ["COLON", "SEMI", "SP", "SP"] + (d["pat"] + ["SP"]) * 4
+    n = rng.randint(1, 4)
+    items = [rand_text(rng, 16, extra) for _ in range(n)]
+    pat = d["pat"] or ["SP"]
+    # the last line decides what the end of a file looks like: empty, one field, ends with the delimiter / a line feed
+    items[-1] = [[], ["a"], items[-1] + pat, items[-1] + ["LF"], items[-1] + ["a"] + pat + ["LF"], items[-1]][k % 6]
+    items[0] = rng.choice([["a"] + pat + ["SQ", "SP", "a"] + pat + ["a"], items[0] or ["a"]]) if n > 1 else items[0]
+    q = rand_text(rng, 8, extra) + ["SP"] + ["a"] + pat + rand_text(rng, 8, extra) + rng.choice([[], ["SP", "SP", "a"]])
+    return {"kind": "pmix", "items": items, "q": q, "d": d, "sep": "NUL" if k % 3 == 1 else "LF"}
+
+
+def pmix_session(ctx, fzf, rec):
+    """One session of the real binary under tmux: --read0 lines (they may contain line feeds, the last may be empty),
+    --multi, a query of several words, [--print0] [--delimiter]; the command run on `load` after select-all copies the
+    temporary files and hands the {q:N} / {N} words to printf."""
+    import tmuxdrv
+    args = ["--read0", "--multi", "--disabled", "--query=" + text_of(rec["q"]), "--bind", PMIX_BIND]
+    if rec["sep"] == "NUL":
+        args.append("--print0")
+    if delim_arg(rec["d"]) is not None:
+        args.append("--delimiter=" + delim_arg(rec["d"]))
+    data = "".join(text_of(i) + "\0" for i in rec["items"]).encode("latin-1")
+    s = tmuxdrv.Session(ctx, fzf, args, input_data=data, listen=False, shell_prefix="env SHELL=/bin/sh ")
+    out = dict(rec, seen=[], pf=[], pf2=[], cf=[], nf=[], err="")
+    try:
+        status, _ = s.wait_exit(120)
+        errs = []
+        if status != 130:
+            errs.append("exit status %d" % status)
+        for key in ("pf", "pf2", "cf", "nf"):
+            p = os.path.join(s.dir, key + ".bin")
+            if not os.path.exists(p):
+                errs.append("%s.bin not written" % key)
+            else:
+                out[key] = syms_of(open(p, "rb").read().decode("latin-1"))
+        p = os.path.join(s.dir, "seen.bin")
+        if not os.path.exists(p):
+            errs.append("printf wrote nothing")
+        else:
+            parts = open(p, "rb").read().decode("latin-1").split("\0")
+            if parts[-1] != "":
+                errs.append("output not NUL-terminated")
+            out["seen"] = [syms_of(w) for w in parts[:-1]]
+        out["err"] = "; ".join(errs)
+    finally:
+        s.close()
+        shutil.rmtree(s.dir, ignore_errors=True)
+    return out
+
+
+def describe_pmix_rec(r):
+    return json.dumps({"args": ["--read0", "--multi"] + (["--print0"] if r["sep"] == "NUL" else []) +
+                               ([] if delim_arg(r["d"]) is None else ["--delimiter=" + delim_arg(r["d"])]),
+                       "bind": PMIX_BIND, "lines": [text_of(i) for i in r["items"]], "query": text_of(r["q"]),
+                       "{+f}": text_of(r["pf"]), "{+f2}": text_of(r["pf2"]), "{f}": text_of(r["cf"]), "{+nf}": text_of(r["nf"]),
+                       "printf_saw": [text_of(w) for w in r["seen"]], "err": r["err"]})[:1800]
+
+
+def pmix_and_judge(ctx, inputs):
+    fzf = ctx.build_fzf()
+    with ThreadPoolExecutor(max_workers=6) as ex:
+        recs = list(ex.map(lambda r: pmix_session(ctx, fzf, r), inputs))
+    bad, _ = vlib.judge(ctx, "Judge_Shell", "Judge_Shell.cfg", recs, "pmix", timeout=3000)
+    if bad:
+        again = [pmix_session(ctx, fzf, inputs[i]) for i in bad[:10]]
+        bad2, _ = vlib.judge(ctx, "Judge_Shell", "Judge_Shell.cfg", again, "pmix-re", timeout=3000, workers=1)
+        if not bad2:
+            raise Infra("pmix: %d rejected sessions, none reproduced" % len(bad))
+        for j in bad2:
+            r = again[j]
+            ctx.violation("file / {q:N} / {N} placeholders in the real binary: files or words differ from the specification: " +
+                          describe_pmix_rec(r),
+                          {"harness": "pmix", "label": "pmix", "record": {k: r[k] for k in ("kind", "items", "q", "d", "sep")},
+                           "kf": {"site": "replacePlaceholder/WriteTemporaryFile (process level)", "err": bool(r["err"])}})
+    return recs
+
+
 # ------------------------------------------------------------------------------------------------ the check
 def run(ctx):
     shells = find_shells()
@@ -351,11 +535,12 @@ def run(ctx):
     if ctx.replay:
         rp = json.load(open(ctx.replay))["case"]
         cells = use_cells(ctx.tlc("MC_Shell", "MC_ShellCells.cfg", label="cells", workers=1))
-        if rp.get("harness") == "pexec":
-            recs = [pexec_session(ctx, ctx.build_fzf(), rp["record"])]
+        if rp.get("harness") in ("pexec", "pmix"):
+            sess, desc = (pexec_session, describe_pexec_rec) if rp["harness"] == "pexec" else (pmix_session, describe_pmix_rec)
+            recs = [sess(ctx, ctx.build_fzf(), rp["record"])]
             bad, _ = vlib.judge(ctx, "Judge_Shell", "Judge_Shell.cfg", recs, "replay", workers=1)
             for j in bad:
-                ctx.violation("pexec: " + describe_pexec_rec(recs[j]), {"harness": "pexec", "record": recs[j]})
+                ctx.violation(rp["harness"] + ": " + desc(recs[j]), {"harness": rp["harness"], "record": recs[j]})
         elif "record" in rp:
             record_and_judge(ctx, h, rp["harness"], [rp["record"]], "replay",
                              dict(senv, VERIF_FZF=ctx.build_fzf()) if rp["harness"] == "TestVerifShellTmux" else senv,
@@ -363,7 +548,9 @@ def run(ctx):
                              lambda r: None)
         else:
             exp = rp["expected"]
-            replay_cases(ctx, h, rp["harness"], [rp["case"]], lambda c: exp, "replay", env=senv, describe=describe)
+            replay_cases(ctx, h, rp["harness"], [rp["case"]], lambda c: exp, "replay",
+                         env=dict(senv, VERIF_FZF=ctx.build_fzf()) if rp["harness"] == "TestVerifShellEnv" else senv,
+                         describe=describe)
         return "model_checking"
 
     nontrivial = 0
@@ -419,24 +606,43 @@ def run(ctx):
 
     # ---- (1)+(2c) expansion: every (template, terminal state) pair
     def exp_expand(c):
-        return {"valid": c["valid"], "x": c["x"], "xf": c["xf"],
+        return {"valid": c["valid"], "x": c["x"], "xf": c["xf"], "fs": c["fs"],
                 "sh": per_shell(shells, c["w"]) if (c["valid"] and c["ws"] == "OK") else None}
 
     # (TLC's -coverage does not get past start-up on this module - its cost model of the nested folds explodes - so the
     # per-action coverage is measured on the exported states: every action changes a variable of its own)
-    cfgs = [("MC_ShellExpand_quick.cfg", "expand")]
+    cfgs = [("MC_ShellExpand_quick.cfg", "expand"), ("MC_ShellExpand_files_quick.cfg", "expand-files")]
     if not ctx.quick:
-        cfgs += [("MC_ShellExpand_wide.cfg", "expand-wide"), ("MC_ShellExpand_deep.cfg", "expand-deep")]
+        cfgs = [("MC_ShellExpand_quick.cfg", "expand"), ("MC_ShellExpand_files.cfg", "expand-files"),
+                ("MC_ShellExpand_files_wide.cfg", "expand-files-wide"),
+                ("MC_ShellExpand_wide.cfg", "expand-wide"), ("MC_ShellExpand_deep.cfg", "expand-deep")]
     spoken = shell_read = 0
+    file_cases = delim_cases = 0
     for cfg, label in cfgs:
         _, ex = mc_and_cases(ctx, "MC_ShellExpand", cfg, label, workers=W, timeout=3000)
         acts = {"AddToken": sum(1 for c in ex if c["t"]), "Toggle": sum(1 for c in ex if c["sel"]),
                 "Move": sum(1 for c in ex if c["cur"]), "SetQuery": sum(1 for c in ex if c["q"]),
                 "SetForcePlus": sum(1 for c in ex if c["fp"]),
                 "want:OK": sum(1 for c in ex if c["want"] == "OK"), "want:NA": sum(1 for c in ex if c["want"] == "NA"),
-                "want:HAZARD": sum(1 for c in ex if c["want"] == "HAZARD"),
-                "want:INCOMPLETE": sum(1 for c in ex if c["want"] == "INCOMPLETE"),
                 "not-valid": sum(1 for c in ex if not c["valid"])}
+        if "files" in label:
+            # the classes the delimiter / file part is about (counted on the exported states)
+            last_empty = lambda f, sep: len(f) >= 2 and f[-1] == sep and f[-2] == sep
+            acts.update({
+                "file placeholder": sum(1 for c in ex if c["fs"]),
+                "file: several records": sum(1 for c in ex if c["fs"] and len(c["sel"]) > 1),
+                "file: last record empty or ends with the separator": sum(
+                    1 for c in ex for f in c["fs"] if last_empty(f, "N" if c["sep"] == "LF" else "Z") or f in ("N", "Z")),
+                "file: --print0": sum(1 for c in ex if c["fs"] and c["sep"] == "NUL"),
+                "{q:N} under --delimiter": sum(1 for c in ex if "Oq:" in c["t"] and c["d"]["kind"] != "awk" and c["q"]),
+                "{N} under --delimiter": sum(1 for c in ex if "O2E" in c["t"] and c["d"]["kind"] != "awk"),
+                "delimiter: literal": sum(1 for c in ex if c["d"]["kind"] == "str"),
+                "delimiter: bracket expression": sum(1 for c in ex if c["d"]["kind"] == "cls")})
+            file_cases += sum(1 for c in ex if c["fs"] and c["valid"])
+            delim_cases += sum(1 for c in ex if c["valid"] and c["d"]["kind"] != "awk" and ("Oq:" in c["t"] or "O2E" in c["t"] or "f2" in c["t"]))
+        else:
+            acts.update({"want:HAZARD": sum(1 for c in ex if c["want"] == "HAZARD"),
+                         "want:INCOMPLETE": sum(1 for c in ex if c["want"] == "INCOMPLETE")})
         if min(acts.values()) == 0:
             raise Infra("vacuous model (%s): %s" % (label, acts))
         ctx.cov["action_coverage"][label + " (states reached through / classified as)"] = acts
@@ -454,6 +660,45 @@ def run(ctx):
         raise Infra("no expansion case in which the property speaks")
     nontrivial += spoken
     ctx.cov["expansions_read_by_real_shells"] = shell_read
+    ctx.cov["expansions_with_file_placeholders (file contents compared)"] = file_cases
+    ctx.cov["expansions_of_field_placeholders_under_a_delimiter"] = delim_cases
+
+    # ---- (1)+(2d) the --tmux re-launch script: every environment entry over the environment alphabet
+    def exp_env(c):
+        return {"script": c["script"], "vars": c["vars"], "ran": [], "err": ""}
+
+    # entries that are an identifier and nothing else (no "=")
+    is_bare_ident = lambda c: "=" not in c["ent"] and c["ent"] and c["ent"][0] in "au" and not (set(c["ent"]) - set("a1u"))
+
+    def kf_env(c, exp, r):
+        got = r.get("got") or {}
+        if is_bare_ident(c) and got.get("err"):
+            return {"site": "runProxy", "kind": "env-entry-without-equals"}
+        return {"site": "runProxy", "kind": "env-export", "exported": c["exported"]}
+
+    _, envc = mc_and_cases(ctx, "MC_Shell", ctx.pick("MC_ShellEnv_quick.cfg", "MC_ShellEnv.cfg"), "env", coverage=ctx.quick,
+                           workers=W)
+    envc = [c for c in envc if not c["ent"].startswith("u=")]       # $_ is maintained by the shells themselves
+    envc.sort(key=lambda c: ("=" not in c["ent"], len(c["ent"]), c["ent"]))     # NAME=value entries first
+    cls = {"exported": sum(1 for c in envc if c["exported"]),
+           "name is not an identifier": sum(1 for c in envc if not c["exported"] and "=" in c["ent"]),
+           "valid beginning, then something else": sum(1 for c in envc if not c["exported"] and "=" in c["ent"]
+                                                       and c["ent"][0] in "au" and c["ent"].index("=") > 1),
+           "no =": sum(1 for c in envc if "=" not in c["ent"])}
+    if min(cls.values()) == 0:
+        raise Infra("vacuous environment enumeration: %s" % cls)
+    ctx.cov["action_coverage"]["env (entries by class)"] = cls
+    # the bare identifiers are a class of their own, replayed apart from the rest so that a disagreement about it
+    # cannot use up the report budget of the other classes
+    fenv = dict(senv, VERIF_FZF=ctx.build_fzf())
+    replay_cases(ctx, h, "TestVerifShellEnv", [c for c in envc if not is_bare_ident(c)], exp_env, "env", env=fenv,
+                 describe=describe, kf=kf_env)
+    replay_cases(ctx, h, "TestVerifShellEnv", [c for c in envc if is_bare_ident(c)], exp_env, "env-bare-identifier",
+                 env=fenv, describe=describe, kf=kf_env, max_report=2)
+    nontrivial += sum(1 for c in envc if set(c["ent"]) - set("a1u="))
+    ctx.cov["tmux_relaunch_runs_one_env_entry_each"] = len(envc)
+    e0 = next(c for c in envc if c["exported"] and "Q" in c["ent"])
+    ctx.sample({"env_entry": show(e0["ent"]), "script_line": show(e0["script"]), "child_env": show(e0["vars"])})
 
     # ---- (3a) J: random long inputs, real ExecCommand under every shell
     n = ctx.pick(1500, 20000)
@@ -480,9 +725,9 @@ def run(ctx):
 
     # ---- (3b) J: the real binary re-launching itself for --tmux
     m = ctx.pick(150, 1500)
-    tin = [rand_tmux_input(ctx.rng) for _ in range(m)]
+    tin = [rand_tmux_input(ctx.rng, k) for k in range(m)]
     trecs, _ = record_and_judge(ctx, h, "TestVerifShellTmux", tin, "tmux", dict(senv, VERIF_FZF=ctx.build_fzf()),
-                                describe_tmux_rec, lambda r: {"site": "runTmux/runProxy re-quoting"})
+                                describe_tmux_rec, kf_tmux)
     nontrivial += m
     ctx.sample({"tmux_child_argv": [text_of(a) for a in trecs[0]["seen"]][:9]})
 
@@ -505,6 +750,15 @@ def run(ctx):
                 "with-shell": " ".join("/".join(w) for w in precs[0]["ws"]), "item": text_of(precs[0]["item"]),
                 "query": text_of(precs[0]["q"]), "printf_saw": [text_of(w) for w in precs[0]["seen"]]})
 
+    # ---- (3d) J: the real binary: --delimiter, {q:N}, {N}, file placeholders after select-all
+    pm = [rand_pmix_input(ctx.rng, k) for k in range(ctx.pick(36, 600))]
+    pmrecs = pmix_and_judge(ctx, pm)
+    nontrivial += len(pmrecs)
+    ctx.cov["file_and_delimiter_sessions_of_the_real_binary"] = len(pmrecs)
+    p0 = next((r for r in pmrecs if r["d"]["kind"] != "awk" and len(r["items"]) > 1), pmrecs[0])
+    ctx.sample({"delimiter": delim_arg(p0["d"]), "sep": p0["sep"], "lines": [text_of(i) for i in p0["items"]],
+                "query": text_of(p0["q"]), "{+f2}": text_of(p0["pf2"]), "printf_saw": [text_of(w) for w in p0["seen"]]})
+
     ctx.cov["distinct_nontrivial"] = nontrivial
     ctx.cov["shells"] = [" ".join(s["argv"]) for s in shells]
     ctx.cov["rule"] = ("sum of: strings over the 18-symbol data alphabet (length <= %d, all of them) that contain at least "
@@ -515,8 +769,13 @@ def run(ctx):
                        "one placeholder for which the property speaks (placeholders unquoted, not raw); random records "
                        "(items/queries up to 40 symbols, multi-line, up to 5 lines selected) for which it speaks, run by "
                        "the real ExecCommand under every shell (and under 2 cells of the matrix each); --tmux re-launches of the "
-                       "real binary; execute-silent sessions of the real binary under every POSIX-evaluated cell. Compared: code "
-                       "expansion = spec expansion, real shell argv = words computed by TLC" % ctx.pick(4, 5))
+                       "real binary; execute-silent sessions of the real binary under every POSIX-evaluated cell; environment "
+                       "entries (all strings <= %d over 11 symbols) containing something other than letters / digits / _ / =, one "
+                       "`fzf --tmux` run of the real binary each; select-all + execute-silent sessions of the real binary under "
+                       "--delimiter / --print0 (files and words read back). Compared: code expansion = spec expansion, temporary "
+                       "file contents = spec contents, real shell argv = words computed by TLC, export part of the re-launch "
+                       "script = spec text, environment of the re-launched process = the entries the spec exports"
+                       % (ctx.pick(4, 5), ctx.pick(3, 4)))
     ctx.assumptions += [
         "no fish binary here: the fish escaper is bound to the code only (QuoteFish = real QuoteEntry under SHELL=fish; "
         "FishReadsBack is checked on the model alone)",
@@ -524,8 +783,13 @@ def run(ctx):
         "the shell model treats $ ` * ; & | ( { } ! # ~ and an unquoted newline as outside its scope when they are active; "
         "command lines whose template text contains them unquoted are expanded and compared textually but not judged at "
         "shell level",
-        "{f} (temporary file) and {fzf:...} placeholders, range lists with commas and --delimiter are not modelled; field "
-        "expressions use the default AWK-style delimiter only (field semantics: C10)",
+        "{fzf:...} placeholders and range lists with commas are not modelled; --delimiter: AWK style, literal strings and "
+        "regular expressions that are one bracket expression (the three code paths of Tokenize; the full menu: C10)",
+        "file placeholders: the path of the temporary file is one symbol (FILE); the code writes it bare, so the "
+        "shell-level reading assumes a temporary directory whose name is inert ($TMPDIR is chosen by the harness)",
+        "--tmux re-launch: environment entries named TMUX_PANE, BASH_FUNC_*%% and $_ are outside the model; the stand-in "
+        "tmux runs `sh SCRIPT` from an environment without the caller's entries (a popup starts from the tmux server's "
+        "environment); nothing on stderr and a started child are part of the expected observation",
         "the process-level execute/preview path under a tty is exercised by the interactive (tmux) checks; here the command "
         "reaches the shells through the real Executor.ExecCommand without a Terminal loop",
     ]
